@@ -95,8 +95,8 @@ def gen_name(rnd, ctx):
         else:
             names = [rnd.choice([1, 1, 2, 3, 3, 4, 5])]
         items.append([names, rnd.choice([".", ".", ":"])])
-    last = rnd.choice([0, 0, 0, 0, 1, 2])
-    items.append([[last], "."])
+    last = rnd.choice([[0], [0], [0], [0], [1], [2], [0, 1], [1, 2], [2, 0]])      # final attribute(s): Int / Instance
+    items.append([last, "."])
     return items
 
 
@@ -131,7 +131,7 @@ def gen_case(rnd, ctx, maxmut):
         attached.clear()
         attached.update(subtree(0))
 
-    named = sorted(set(f for names, _ in items[:-1] for f in names) | ({items[-1][0][0]} - {0}))
+    named = sorted(set(f for names, _ in items[:-1] for f in names) | (set(items[-1][0]) - {0}))
 
     def pick(fields):
         pref = [f for f in fields if f in named]
@@ -305,7 +305,7 @@ def gen_case(rnd, ctx, maxmut):
             refresh()
             probes()
     ctx.count("name:%d-items%s" % (len(items), "/bracket" if any(len(n) > 1 for n, _ in items) else ""))
-    ctx.count("name-final:" + NAME[items[-1][0][0]])
+    ctx.count("name-final:" + ",".join(NAME[f] for f in items[-1][0]))
     ctx.count("history-length:%03d" % (10 * (len(ops) // 10)))
     return dict(npool=npool, root=0, items=items, legacy=legacy_text(items), graphs=l2g(items), ops=ops)
 
@@ -369,7 +369,7 @@ def run(ctx):
                        "APIs registered on the same root with identical histories, every object ever used is probed "
                        "after every mutation; non-trivial = some call observed through either API")
     rnd = random.Random(ctx.seed)
-    n, maxmut = (300, 7) if ctx.tier == "quick" else (6000, 12)
+    n, maxmut = (300, 7) if ctx.tier == "quick" else (5000, 12)
     if ctx.replay:
         cases = [json.load(open(ctx.replay))["replay"]["case"]]
     else:
@@ -379,6 +379,7 @@ def run(ctx):
     hist.run(ctx, DRIVER, cases, to_term, HEADER, CASE_T, key_fn, describe, nontrivial,
              relation="C16.Corr.corr_codes (legacy_to_graph twin; C08 model = observe() calls on every step)",
              do_shrink=False)
+    c08.truncate_replays(ctx)
     if not ctx.replay:
         check_hyps(ctx, cases)
     proof_gate(ctx, ok, log, PROPS)
